@@ -447,7 +447,19 @@ pub fn op_dec(args: &[&str]) -> String {
     match fl {
         "sync" => {
             let mut rd: &[u8] = &stream;
-            let mut it = sync::DecodeResponseIter::new(root, tree, &mut rd, &ranges);
+            // the caller-supplied decode buffer is unobservable in a correct decoder: take turns between
+            // `new` and `new_with_buffer` with empty, short, group-sized and over-long pre-filled buffers
+            // (variant chosen by a hash of the case, so a case replays exactly)
+            let variant = args.iter().flat_map(|a| a.bytes()).fold(0xcbf29ce484222325u64, |h, b| (h ^ b as u64).wrapping_mul(0x100000001b3)) % 6;
+            let mut it = match variant {
+                0 => sync::DecodeResponseIter::new(root, tree, &mut rd, &ranges),
+                1 => sync::DecodeResponseIter::new_with_buffer(root, tree, &mut rd, &ranges, BytesMut::new()),
+                2 => sync::DecodeResponseIter::new_with_buffer(root, tree, &mut rd, &ranges, BytesMut::zeroed(tree.block_size().bytes())),
+                3 => sync::DecodeResponseIter::new_with_buffer(root, tree, &mut rd, &ranges, BytesMut::from(&vec![0xEEu8; 3000][..])),
+                4 => sync::DecodeResponseIter::new_with_buffer(root, tree, &mut rd, &ranges, BytesMut::from(&[7u8][..])),
+                _ => sync::DecodeResponseIter::new_with_buffer(root, tree, &mut rd, &ranges, BytesMut::from(&vec![0x11u8; 2 * tree.block_size().bytes() + 5][..])),
+            };
+            let _ = it.buffer();
             let mut t = "Done".to_string();
             loop {
                 if it.tree() != tree {
@@ -799,5 +811,33 @@ pub fn op_flip(args: &[&str]) -> String {
         dig(&back.data),
         b01(r1.is_ok()),
         b01(r2.is_ok())
+    )
+}
+
+/// `flipx <seed> <size> <bs>`: flip of memory outboards with arbitrary contents and root
+pub fn op_flipx(args: &[&str]) -> String {
+    let seed: u64 = args[0].parse().unwrap();
+    let size: u64 = args[1].parse().unwrap();
+    let bs = bs_of(args[2]);
+    let tree = BaoTree::new(size, bs);
+    let raw = crate::rng::rand_bytes(seed, tree.outboard_size() as usize + 32);
+    let root = blake3::Hash::from(<[u8; 32]>::try_from(&raw[..32]).unwrap());
+    let data = raw[32..].to_vec();
+    let pre = PreOrderMemOutboard { root, tree, data: data.clone() };
+    let post = PostOrderMemOutboard { root, tree, data };
+    let a = pre.flip();
+    let a2 = a.flip();
+    let b = post.flip();
+    let b2 = b.flip();
+    format!(
+        "postMem:{}:{} preMem:{}:{} preMem:{}:{} postMem:{}:{}",
+        dig(a.root.as_bytes()),
+        dig(&a.data),
+        dig(a2.root.as_bytes()),
+        dig(&a2.data),
+        dig(b.root.as_bytes()),
+        dig(&b.data),
+        dig(b2.root.as_bytes()),
+        dig(&b2.data)
     )
 }
